@@ -179,6 +179,10 @@ func genCP(t *rapid.T, rsize int, movLit bool, name, sec string) *cpGen {
 		g.ramData = rapid.SampledFrom([]int{1, 2, 3, 4, 5, 7, 8, 9}).Draw(t, "ramdata_n")
 		g.exp.RamData = g.ramData
 		g.kinds["ramdata"] = true
+		if g.exp.RamSize >= 0 && g.ramData > (1<<uint(g.exp.RamSize)) {
+			g.exp.RamSize = bitsFor(g.ramData) // the RAM the user declares holds the data the user declares
+			ramBits = g.exp.RamSize
+		}
 		if ramBits < 0 {
 			ramBits = bitsFor(g.ramData)
 		}
